@@ -22,6 +22,7 @@ import (
 	"sort"
 	"strings"
 	"sync"
+	"time"
 
 	"github.com/oklog/ulid/v2"
 	"github.com/prometheus/prometheus/model/labels"
@@ -211,6 +212,68 @@ func floatOf(v int64) float64 {
 	return float64(v)
 }
 
+// afterWaitInterleave: let the scheduler act between c06.truncateSeries.afterWait and the eviction.
+var afterWaitInterleave = os.Getenv("C06_AFTERWAIT") == "1"
+
+// inclusiveSeriesWait: does Head.truncateSeries wait for a reader whose mint equals its maxt?
+// (decided once per process by probeInclusive on the tree under test)
+var inclusiveSeriesWait bool
+
+// probeInclusive runs CompactSelectedSeries on a tiny database with a querier [maxt, ...] open and
+// looks whether the compaction parks in the reader wait of truncateSeries or returns.
+func probeInclusive(root string) bool {
+	dir, err := os.MkdirTemp(root, "probe")
+	if err != nil {
+		panic(err)
+	}
+	defer os.RemoveAll(dir)
+	db, err := tsdbx.Open(dir, tsdbx.Options{BlockRange: blockRange})
+	if err != nil {
+		panic(err)
+	}
+	defer db.DB.Close()
+	for _, t := range []int64{1000, 1050} {
+		if _, err := db.Tx([]tsdbx.AppendReq{{Labels: lbl(0), T: t, V: 1}}, true); err != nil {
+			panic(err)
+		}
+	}
+	var refs []storage.SeriesRef
+	for _, s := range db.HeadDump() {
+		refs = append(refs, storage.SeriesRef(s.Ref))
+	}
+	q, err := db.DB.Querier(1050, 2000)
+	if err != nil {
+		panic(err)
+	}
+	a := spawn("probe", func() error { return db.DB.CompactSelectedSeries(refs) })
+	a.resume <- struct{}{}
+	incl, open := false, true
+	for {
+		t := time.NewTimer(5 * time.Millisecond)
+		select {
+		case <-a.hit:
+			t.Stop()
+			a.resume <- struct{}{}
+			continue
+		case <-a.fin:
+			t.Stop()
+			if open {
+				q.Close()
+			}
+			return incl
+		case <-t.C:
+		}
+		if !open {
+			continue
+		}
+		st, fs := goroutineInfo(a.gid)
+		if classify(st, fs) == "series.readers" {
+			incl, open = true, false
+			q.Close()
+		}
+	}
+}
+
 func lbl(sid int64) labels.Labels { return labels.FromStrings("a", fmt.Sprint(sid)) }
 
 // ---- history -------------------------------------------------------------------------------
@@ -301,7 +364,12 @@ func (c *caseRun) viewHistory() string {
 	nser := int64(2 + r.Intn(2))
 	base := r.PickI64(0, 1000, 1000, 300, -450)
 	v := int64(1)
+	used := map[[2]int64]bool{}
 	add := func(sid, t, val int64) {
+		if used[[2]int64{sid, t}] {
+			return // a second sample at the same (series, t) is dropped silently by the OOO head (C01's subject)
+		}
+		used[[2]int64{sid, t}] = true
 		if c.appendOne(sid, t, val) && val != 0 {
 			v++
 		}
@@ -872,6 +940,14 @@ func (c *caseRun) handle(a *actor, kind int, site string) {
 		if a == c.comp {
 			c.lastSite = site
 			c.compHit(site)
+			if site == "c06.truncateSeries.afterWait" && !afterWaitInterleave {
+				// undecided regime (notes/C06.md): a querier created and Select'ed between the
+				// return of the reader wait and gcSeries is not protected by anything in
+				// truncateSeries; the harness does not interleave there unless C06_AFTERWAIT=1
+				a.resume <- struct{}{}
+				k, s2 := await(a, false, true, c.condFalse)
+				c.handle(a, k, s2)
+			}
 		} else {
 			c.qHit(c.qOf(a), site)
 		}
@@ -1377,7 +1453,7 @@ type result struct {
 
 func runCase(seed uint64, idx int, root string) (res result) {
 	r := gen.Fork(seed, idx)
-	c := &caseRun{idx: idx, r: r, index: map[smp]int{}, blocks: map[string]*blk{}, dist: map[string]int{}}
+	c := &caseRun{idx: idx, r: r, index: map[smp]int{}, blocks: map[string]*blk{}, dist: map[string]int{}, inclWait: inclusiveSeriesWait}
 	c.prog = gen.Pick(r, []string{"compact", "compact", "planner", "planner", "planner", "ooo", "merge", "merge", "stale", "stale", "selected", "selected"})
 	corpus := idx < 5
 	if corpus {
@@ -1635,6 +1711,13 @@ func main() {
 		defer pprof.StopCPUProfile()
 	}
 	verifhook.SetHandler(hookHandler)
+	root0, err0 := os.MkdirTemp(f.Out, "c06p")
+	if err0 != nil {
+		panic(err0)
+	}
+	inclusiveSeriesWait = probeInclusive(root0)
+	os.RemoveAll(root0)
+	meta.Notes = append(meta.Notes, fmt.Sprintf("truncateSeries waits for a reader at mint = maxt: %v", inclusiveSeriesWait))
 	n := f.Count(48, 2000)
 	root, err := os.MkdirTemp(f.Out, "c06")
 	if err != nil {
